@@ -149,6 +149,7 @@ pub fn run_check(a: &CheckArgs) -> i32 {
     }
     let mut reports: Vec<J> = Vec::new();
     let mut crashed: Vec<String> = Vec::new();
+    let mut hung: Vec<u64> = Vec::new();
     let mut digest_files = Vec::new();
     for (w, k, dfile) in kids {
         let out = k.wait_with_output();
@@ -158,6 +159,7 @@ pub fn run_check(a: &CheckArgs) -> i32 {
                 let line = txt.lines().rev().find(|l| l.starts_with('{')).unwrap_or("");
                 match json::parse(line) {
                     Ok(j) if o.status.success() => reports.push(j),
+                    Ok(j) if j.get("hung_index").is_some() => hung.push(j.u("hung_index")),
                     _ => crashed.push(format!("worker {} exited with {:?} (log: {}/{}-w{}.log)", w, o.status, tmp, tag, w)),
                 }
             }
@@ -224,6 +226,30 @@ pub fn run_check(a: &CheckArgs) -> i32 {
     }
     samples.sort_by_key(|s| s.u("index"));
     samples.truncate(3);
+    // a run that never came back: reported with its scenario (re-running it hangs again)
+    hung.sort_unstable();
+    for &index in hung.iter().take(1) {
+        let seed = crate::prng::run_seed(a.seed, props::salt(prop), index);
+        let (scn, cfg) = props::generate(prop, seed, index);
+        n_violations += 1;
+        violations.push(
+            J::obj()
+                .set("property", J::str(prop))
+                .set("class", J::Str(format!("{}.hang", prop)))
+                .set("site", J::str("?"))
+                .set("tags", J::Arr(scn.tags.iter().map(|t| J::str(t)).collect()))
+                .set("message", J::str("the run never came back: the queue's code loops outside any scheduling point of the simulator (for example a destructor walking an inconsistent position range); the worker's watchdog ended the process"))
+                .set("index", J::UInt(index))
+                .set("seed", J::UInt(seed))
+                .set("end", J::str("hang"))
+                .set("hang", J::Bool(true))
+                .set("scenario", scn.to_json())
+                .set("sched", crate::scenario::sched_json(&cfg))
+                .set("schedule", J::str(""))
+                .set("history_digest", J::str(""))
+                .set("minimised", J::Bool(false)),
+        );
+    }
     violations.sort_by_key(|v| v.u("index"));
 
     // ---- distinct non-trivial executions and determinism resample
@@ -299,18 +325,54 @@ pub fn run_check(a: &CheckArgs) -> i32 {
         // an un-minimised but strict replay file first, so that a timeout never loses it
         let _ = std::fs::write(&path, first.pretty());
         let min_budget = Duration::from_secs(if a.thorough { 60 } else { 20 });
-        if let Ok(f) = minimise::parse_failure(first) {
-            let m = minimise::minimise(&f, min_budget, 200);
-            let _ = std::fs::write(&path, m.pretty());
-            // replay once more in a fresh process
-            let st = Command::new(&exe).arg("replay").arg(&path).stdout(Stdio::null()).stderr(Stdio::null()).status();
-            match st {
-                Ok(s) if s.code() == Some(1) => {}
-                _ => {
-                    // fall back to the original record
-                    let _ = std::fs::write(&path, first.pretty());
+        let is_hang = first.get("hang").and_then(|x| x.as_bool()).unwrap_or(false);
+        if !is_hang {
+            // minimise in a child process with a hard time limit: on a broken tree a single
+            // execution may never return
+            let out_path = format!("{}.min", path);
+            let child = Command::new(&exe)
+                .arg("minimise")
+                .arg(&path)
+                .arg(&out_path)
+                .arg(min_budget.as_secs().to_string())
+                .stdout(Stdio::null())
+                .stderr(Stdio::null())
+                .spawn();
+            if let Ok(mut c) = child {
+                let deadline = Instant::now() + min_budget + Duration::from_secs(45);
+                loop {
+                    match c.try_wait() {
+                        Ok(Some(_)) => break,
+                        Ok(None) if Instant::now() > deadline => {
+                            let _ = c.kill();
+                            let _ = c.wait();
+                            break;
+                        }
+                        Ok(None) => std::thread::sleep(Duration::from_millis(100)),
+                        Err(_) => break,
+                    }
                 }
             }
+            if let Ok(txt) = std::fs::read_to_string(&out_path) {
+                if json::parse(&txt).is_ok() {
+                    // replay once more in a fresh process (with a time limit of its own)
+                    let _ = std::fs::write(&path, &txt);
+                    let ok = Command::new("timeout")
+                        .arg("120")
+                        .arg(&exe)
+                        .arg("replay")
+                        .arg(&path)
+                        .stdout(Stdio::null())
+                        .stderr(Stdio::null())
+                        .status()
+                        .map(|s| s.code() == Some(1))
+                        .unwrap_or(false);
+                    if !ok {
+                        let _ = std::fs::write(&path, first.pretty());
+                    }
+                }
+            }
+            let _ = std::fs::remove_file(&out_path);
         }
         replay_paths.push(path);
     }
@@ -430,6 +492,31 @@ pub fn run_replay(path: &str) -> i32 {
             return 2;
         }
     };
+    if j.get("hang").and_then(|x| x.as_bool()).unwrap_or(false) {
+        // re-run the scenario in a child process under a watchdog
+        let exe = std::env::current_exe().expect("current exe");
+        let tmp = tmp_dir();
+        let ifile = format!("{}/replay-hang-{}.idx", tmp, std::process::id());
+        let _ = std::fs::write(&ifile, j.u("index").to_string());
+        // the base seed is not stored; the scenario is: run it directly
+        let out = Command::new("timeout").arg("90").arg(&exe).arg("run-scenario").arg(path).stdout(Stdio::piped()).stderr(Stdio::null()).output();
+        let _ = std::fs::remove_file(&ifile);
+        return match out {
+            Ok(o) if o.status.code() == Some(124) => {
+                println!("reproduced: the run does not come back within 90 s");
+                println!("VIOLATION property={} replay={}", j.s("property"), path);
+                1
+            }
+            Ok(_) => {
+                println!("not reproduced: the run completed");
+                0
+            }
+            Err(e) => {
+                eprintln!("cannot run: {}", e);
+                2
+            }
+        };
+    }
     let f = match minimise::parse_failure(&j) {
         Ok(f) => f,
         Err(e) => {
